@@ -60,7 +60,7 @@ def run(tier):
             j["mustreject"] = True
             ej.append(j)
         jid += 1
-        j = wf.mkjob(jid, "PowerOnDetectFast", mode="real", stream={"kind": "const", "byte": 0, "len": -1}, policy="fixed", size=65536, rseed=jid, tag="const00 " + label, timeout_ms=600000)
+        j = wf.mkjob(jid, "PowerOnDetectFast", mode="real", stream={"kind": "const", "byte": 0, "len": -1}, policy="fixed", size=65536, rseed=jid, tag="const00 " + label, timeout_ms=150000)
         j["mustreject"] = True
         j["noMatrix"] = True
         ej.append(j)
